@@ -6,7 +6,7 @@ import z3
 from . import loader
 from .core import (REG, RefV, ArrV, StructV, Ty, VerifError, PathEnd, T_INT, T_FLOAT, T_BOOL, T_ANY, parse_type, sort_of, sort_key,
                    type_of_value)
-from .values import (FuncV, BuiltinV, ClassV, ModuleV, SuperV, LambdaV, ExcV, RangeV, EnumV, ZipV, GenV, Frame,
+from .values import (FuncV, BuiltinV, ClassV, ModuleV, SuperV, LambdaV, ExcV, RangeV, EnumV, ZipV, GenV, Frame, KwargsV,
                      ReturnSig, RaiseSig)
 from .interp_expr import is_z3, is_intlike, EXC_NAMES
 
@@ -18,7 +18,7 @@ class CallMixin(object):
     SPEC_FORMS = {"forall", "exists", "old", "let"}
     SPEC_FUNCS = {"isinf", "isnan", "is_int", "abs", "min", "max", "len", "finite", "implies", "iff", "ite", "fresh",
                   "floor", "trunc", "has", "get", "real", "allocated_before", "same", "sqrt", "arr", "add_rtp", "add_rtn",
-                  "sub_rtp", "sub_rtn", "exact_add", "exact_sub", "rn_add", "rn_sub", "next_up", "next_down"}
+                  "sub_rtp", "sub_rtn", "exact_add", "exact_sub", "rn_add", "rn_sub", "pow", "next_up", "next_down"}
 
     # ------------------------------------------------------------------ dispatch
     def call_value(self, f, args, kwargs, spec, node=None):
@@ -59,8 +59,6 @@ class CallMixin(object):
     def bind_args(self, f, args, kwargs):
         fn = f.node
         a = fn.args
-        if a.vararg or a.kwarg:
-            raise VerifError("*args/**kwargs in %s" % fn.name)
         names = [x.arg for x in a.posonlyargs + a.args]
         decos = f.owner.decorators.get(fn.name, []) if f.owner is not None else []
         vals = list(args)
@@ -72,7 +70,12 @@ class CallMixin(object):
                 vals = [f.self_val] + vals
         env = {}
         if len(vals) > len(names):
-            raise VerifError("too many arguments for %s" % fn.name)
+            if not a.vararg:
+                raise VerifError("too many arguments for %s" % fn.name)
+            env[a.vararg.arg] = tuple(vals[len(names):])
+            vals = vals[:len(names)]
+        elif a.vararg:
+            env[a.vararg.arg] = ()
         for n, v in zip(names, vals):
             env[n] = v
         defaults = a.defaults
@@ -95,9 +98,11 @@ class CallMixin(object):
                 env[ko.arg] = kwargs[ko.arg]
             elif kd is not None:
                 env[ko.arg] = self.ev(kd, False)
-        for k in kwargs:
-            if k not in names and k not in [x.arg for x in a.kwonlyargs]:
-                raise VerifError("unexpected keyword %s for %s" % (k, fn.name))
+        extra = {k: v for k, v in kwargs.items() if k not in names and k not in [x.arg for x in a.kwonlyargs]}
+        if a.kwarg:
+            env[a.kwarg.arg] = KwargsV(extra)
+        elif extra:
+            raise VerifError("unexpected keyword %s for %s" % (sorted(extra)[0], fn.name))
         return env
 
     def exec_function(self, f, args, kwargs):
@@ -400,6 +405,8 @@ class CallMixin(object):
             if name in ("rn_add", "rn_sub"):
                 return op(z3.RNE(), a, b)
             return op(z3.RTP() if name.endswith("rtp") else z3.RTN(), a, b)
+        if name == "pow":
+            return self.float_pow(args[0], args[1], True)
         if name == "arr":
             v = args[0]
             return ArrV(ctx.list_arr(v, v.ty.base.args[0]), v.ty.base.args[0])
